@@ -1,5 +1,11 @@
 package main
 
+import (
+	"time"
+
+	"github.com/hashicorp/raft"
+)
+
 // C11 (compaction arithmetic): real compactLogsWithTrailing on a stepper node over a recording
 // MapLogStore vs Model/Compaction.v.
 // input: first storeLast snap last trailing ; output: 0 | 1 lo hi   (the DeleteRange issued)
@@ -56,6 +62,7 @@ func c11exec(cw *caseWriter, tag string, in []uint64) {
 }
 
 func runC11(cw *caseWriter, tier string, seed uint64) {
+	runC11race(cw, tier, seed)
 	n := 0
 	for first := uint64(0); first <= 8; first++ {
 		for snap := uint64(0); snap <= 8; snap++ {
@@ -166,4 +173,84 @@ func c11monitor(cw *caseWriter) func(tag string, in, obs []uint64) {
 			cur = next
 		}
 	}
+}
+
+// ---------------------------------------------------------------- component 1011: a snapshot racing a configuration commit
+// The FSM goroutine is held inside Apply; takeSnapshot starts; an AppendEntries then stores and
+// commits a configuration entry; the FSM is released.  Whatever the interleaving, a snapshot that is
+// written must carry the configuration of the committed history AT ITS INDEX: the last
+// configuration entry at or below the snapshot index (monitored; no model replay).
+func c11race(cw *caseWriter, tag string, seed uint64) {
+	r := &rng{s: seed}
+	cfg0 := cfgSAB
+	cfg1 := []srv{{0, 1, 1}, {0, 2, 2}, {0, 3, 3}, {1, 4, 4}}
+	logs, stable, snaps := NewMapLogStore(nil), NewMapStable(), NewSnapStore()
+	logs.m[1] = &raft.Log{Index: 1, Term: 1, Type: raft.LogConfiguration, Data: raft.EncodeConfiguration(mkConfig(cfg0))}
+	stable.kvInt["CurrentTerm"] = 3
+	n, err := newNode(nodeOpts{id: 1, trailing: uint64(r.intn(3)), maxAppend: 4}, logs, stable, snaps)
+	if err != nil {
+		return
+	}
+	defer n.shutdown()
+	n.fsm.gate = make(chan struct{})
+	n.r.VerifStartFSM()
+	stop := make(chan struct{})
+	go n.r.VerifServeConfigurations(stop)
+	defer close(stop)
+	send := func(prevIdx, prevTerm uint64, es []*raft.Log, commit uint64) {
+		req := &raft.AppendEntriesRequest{RPCHeader: header(3, 3), Term: 3, PrevLogEntry: prevIdx, PrevLogTerm: prevTerm, Entries: es, LeaderCommitIndex: commit}
+		n.r.VerifProcessRPC(req, nil)
+	}
+	// two commands: the FSM goroutine takes the first and waits at the gate
+	send(1, 1, []*raft.Log{mkLog(2, 3, 0, 302), mkLog(3, 3, 0, 303)}, 3)
+	time.Sleep(time.Duration(100+r.intn(400)) * time.Microsecond)
+	type res struct {
+		id  string
+		err error
+	}
+	done := make(chan res, 1)
+	go func() { id, err := n.r.VerifTakeSnapshot(); done <- res{id, err} }()
+	time.Sleep(time.Duration(200+r.intn(1500)) * time.Microsecond)
+	// the configuration entry (index 4) and a command, both committed
+	cfgEntry := &raft.Log{Index: 4, Term: 3, Type: raft.LogConfiguration, Data: raft.EncodeConfiguration(mkConfig(cfg1))}
+	send(3, 3, []*raft.Log{cfgEntry, mkLog(5, 3, 0, 305)}, 5)
+	time.Sleep(time.Duration(r.intn(500)) * time.Microsecond)
+	close(n.fsm.gate)
+	var out res
+	select {
+	case out = <-done:
+	case <-time.After(2 * time.Second):
+		cw.monitor("C11", tag, "takesnapshot-did-not-return", "racing snapshot did not return within 2 s")
+		return
+	}
+	obs := []uint64{b2u(out.err == nil)}
+	if out.err == nil {
+		metas, _ := snaps.List()
+		if len(metas) > 0 {
+			m := metas[0]
+			obs = append(obs, m.Index, m.ConfigurationIndex, uint64(len(m.Configuration.Servers)))
+			wantIdx, want := uint64(1), cfg0
+			if m.Index >= 4 {
+				wantIdx, want = 4, cfg1
+			}
+			got := encConfig(m.Configuration)
+			if m.ConfigurationIndex != wantIdx || !c15eqInts(got, encSrvs(want)) {
+				cw.monitor("C11", tag, "snapshot-configuration-is-not-that-of-its-index", "snapshot at index %d records configuration index %d with %d servers; the last configuration entry at or below %d is index %d with %d servers",
+					m.Index, m.ConfigurationIndex, len(m.Configuration.Servers), m.Index, wantIdx, len(want))
+			}
+		}
+	}
+	cw.emit(tag, 1011, []uint64{seed}, obs, out.err == nil)
+}
+
+func runC11race(cw *caseWriter, tier string, seed uint64) {
+	cnt := 60
+	if tier != "quick" {
+		cnt = 1500
+	}
+	r := &rng{s: seed*131 + 7}
+	for i := 0; i < cnt; i++ {
+		c11race(cw, cw.tag("z"), r.next()%1000000+1)
+	}
+	cw.stat("c11_snapshot_races", cnt)
 }
